@@ -41,6 +41,11 @@ type toolResult struct {
 
 var invocations int
 
+var stale = bytes.Repeat([]byte("stale bytes of an earlier, longer output file "), 60000)
+
+// preexisting makes the -o target of the next tool call an existing file that is longer than anything the tool will write.
+func preexisting(path string) { os.WriteFile(path, stale, 0o644) }
+
 func tool(name string, env []string, args ...string) toolResult {
 	invocations++
 	cmd := exec.Command(bins[name], args...)
@@ -427,6 +432,9 @@ func run20(r *mon.Run) {
 		}
 		det := map[string]any{"tree": t, "version": ver, "base_url": baseStr, "files": names}
 		key := fmt.Sprintf("dir:%d", t)
+		if t%2 == 1 {
+			preexisting(wbn)
+		}
 		res := tool("gen-bundle", nil, args...)
 		outcome := "dir:ok"
 		var parsed *rbundle.Parsed
@@ -489,6 +497,9 @@ func run20(r *mon.Run) {
 				wantDate = 1500000000 + int64(g.Intn(1e8))
 				sargs = append(sargs, "-date", time.Unix(wantDate, 0).UTC().Format(time.RFC3339))
 			}
+			if t%3 == 0 {
+				preexisting(signed)
+			}
 			sres := tool("sign-bundle", passEnv, sargs...)
 			so := "sign-sections:ok"
 			sdet := map[string]any{"tree": t, "expire": expire, "key_form": kf.form, "curve": m.key.Curve.Params().BitSize, "record_size": rs, "date": wantDate, "output": tail(sres.out)}
@@ -516,6 +527,9 @@ func run20(r *mon.Run) {
 			// ---- sign-bundle integrity-block
 			ek := ed.keys[t%len(ed.keys)]
 			ibOut := wbn + ".ib"
+			if t%3 != 1 {
+				preexisting(ibOut)
+			}
 			ires := tool("sign-bundle", passEnv, "integrity-block", "-i", wbn, "-o", ibOut, "-privateKey", ek.path)
 			io := "sign-ib:ok"
 			idet := map[string]any{"tree": t, "key_form": ek.form, "output": tail(ires.out)}
@@ -654,6 +668,9 @@ func run20(r *mon.Run) {
 		key := fmt.Sprintf("har:%d", h)
 		det := map[string]any{"har": h, "entries": len(entries), "retained_expected": order}
 		args := []string{"-har", hp, "-o", wbn, "-version", "b2"}
+		if h%2 == 0 {
+			preexisting(wbn)
+		}
 		res := tool("gen-bundle", nil, args...)
 		outcome := "har:ok"
 		if res.rc != 0 {
@@ -760,6 +777,9 @@ func run20(r *mon.Run) {
 		}
 		key := fmt.Sprintf("sxg:%d", s)
 		det := map[string]any{"case": s, "version": ver, "key_form": kf.form, "curve": m.key.Curve.Params().BitSize, "record_size": rs, "content_len": len(content), "uri": uri, "status": status, "explicit_date": explicitDate}
+		if s%2 == 0 {
+			preexisting(out)
+		}
 		res := tool("gen-signedexchange", passEnv, args...)
 		outcome := "sxg:ok"
 		if res.rc != 0 {
